@@ -42,3 +42,37 @@ def replay_auth_once(doc):
     if bad:
         return True, 'alternating 401/307 with credentials: (max_redirects, requests issued, authentication retries) = %s; the statement allows max_redirects + 2 requests and one retry' % bad
     return False, 'requests per visit within max_redirects + 2 for %s' % out
+
+
+def replay_hostile_redirect(doc):
+    """C09: a Location chosen by the server (any scheme, any shape) ends in a per-URL error kind at worst.  Real WebSession, real HTTP
+    Client and ConnectionPool; only name resolution is stubbed (it raises NetworkError: there is no network here)."""
+    from compat import shim
+    from wpull.protocol.http.client import Client
+    from wpull.protocol.http.request import Request, Response
+    from wpull.protocol.http.redirect import RedirectTracker
+    from wpull.protocol.http.web import WebSession
+    from wpull.network.pool import ConnectionPool
+    from wpull.errors import NetworkError
+    from wpull.processor.base import REMOTE_ERRORS
+
+    class Resolver:
+        def resolve(self, host):
+            if False: yield
+            raise NetworkError('replay: name resolution is stubbed')
+    bad = []
+    locs = ['mailto:x@y', 'javascript:alert(1)', 'data:,x', 'foo://bar/baz', 'file:///etc/passwd', 'about:blank', 'tel:+1', 'urn:x:y', 'http://h.example/ok', 'https://h.example:8443/ok',
+            'http://:80/', 'http://h.example:99999/', 'http://[::1', '//h.example/p', '/relative', '?q', '#frag', '', ' ', 'http://h.example:0/']
+    for code in (301, 302, 303, 307, 308):
+        for loc in locs:
+            o = Request('http://origin.example/start'); o.prepare_for_send()
+            ws = WebSession(o, http_client=Client(connection_pool=ConnectionPool(resolver=Resolver())), redirect_tracker=RedirectTracker(max_redirects=20), request_factory=Request)
+            r = Response(status_code=code, reason='x'); r.request = o; r.fields['Location'] = loc
+            try:
+                ws._process_response(r)
+                if ws.next_request() is not None: shim.run(ws.start())
+            except REMOTE_ERRORS: pass
+            except BaseException as e:
+                bad.append('%d with Location: %r -> %s: %s' % (code, loc, type(e).__name__, str(e)[:60]))
+    if bad: return True, '; '.join(bad[:6]) + (' (+%d more)' % (len(bad) - 6) if len(bad) > 6 else '')
+    return False, '%d redirect targets x 5 codes end in a per-URL error kind at worst' % len(locs)
